@@ -14,6 +14,9 @@ import (
 // declared lengths with a short body, bad bool / option / result / variant tags.
 func c12Run(line string) string {
 	f := strings.Fields(line)
+	if len(f) > 0 && f[0] == "mdec" {
+		return c11MapRun(f)
+	}
 	if len(f) != 3 || f[0] != "d" {
 		return "bad-op"
 	}
@@ -44,6 +47,9 @@ func c12StartsByteString(t *c11Ty) bool {
 
 func c12Gen(r *vhRng) string {
 	q := &c12Q
+	if len(q.queue) == 0 && r.Chance(1, 6) { // a Go map destination (nil or made)
+		return c11MapGen(r, false)
+	}
 	if len(q.queue) == 0 {
 		t := c11GenTopTy(r)
 		ts := t.String()
